@@ -377,6 +377,45 @@ def build_replica(mlog):
   return w
 
 
+def _churn_native_heap(seed):
+  """Allocate and free typegraph objects so that the allocator hands the next
+  Program's nodes/bindings out in a different relative address order."""
+  c = cfg()
+  rr = random.Random(seed)
+  keep = []
+  for _ in range(rr.randrange(1, 4)):
+    p = c.Program()
+    n = p.NewCFGNode("j")
+    vs = []
+    for i in range(rr.randrange(1, 40)):
+      v = p.NewVariable()
+      for k in range(rr.randrange(1, 4)):
+        v.AddBinding(DATA[k], [], n)
+      vs.append(v)
+    if rr.random() < 0.5:
+      keep.append((p, n, vs))
+  return keep
+
+
+def fresh_answers(mlog, r, tries, seed):
+  """Answers of `tries` independently built fresh copies of the same graph,
+  with the native heap churned in between. A deterministic solver gives one."""
+  out = []
+  held = []
+  for t in range(tries):
+    if t:
+      held.append(_churn_native_heap(seed * 1009 + t))
+      if len(held) > 2:
+        held.pop(0)
+    rep = build_replica(mlog)
+    out.append(rep.query(r))
+    if t % 2 == 0:
+      held.append(rep)       # keep some replicas alive: shifts later addresses
+      if len(held) > 3:
+        held.pop(0)
+  return out
+
+
 def make_foreign():
   c = cfg()
   p = c.Program()
@@ -430,6 +469,9 @@ def execute(trace, mode, classify=False, keep_log=False, focus=None,
   log = kernel.EventLog(keep=keep_log)
   ops = trace["ops"]
   pair_seed = trace.get("pair_seed", 0)
+  nondet_tries = trace.get("nondet_tries", 0)
+  if nondet_tries and classify:
+    nondet_tries = max(nondet_tries, 160)   # replay / classification: try harder
   live = World()
   foreign = None
   junk = []
@@ -576,7 +618,14 @@ def execute(trace, mode, classify=False, keep_log=False, focus=None,
       since_mut.setdefault(key, ans)
       rep = build_replica(mlog)
       ref = rep.query(r)
-      if ref != ans:
+      if nondet_tries and is_solver_q:
+        others = fresh_answers(mlog, r, nondet_tries, pair_seed + idx)
+        bump(probes, "fresh_vs_fresh_comparisons", len(others))
+        if any(o != ref for o in others):
+          violation = {"oracle": "fresh_vs_fresh", "class": "NONDET", "query": r,
+                       "answers": [ref] + others, "op_index": idx,
+                       "signature": {"class": "NONDET"}}
+      if violation is None and ref != ans:
         violation = {"oracle": "replica", "class": "DIVERGE", "query": r,
                      "live": ans, "fresh": ref, "op_index": idx}
         if live.snapshot() != rep.snapshot():
@@ -584,7 +633,7 @@ def execute(trace, mode, classify=False, keep_log=False, focus=None,
               "replica is not a structural copy of the live graph at op %d" % idx)
       del rep
     if violation:
-      if classify:
+      if classify and violation["class"] != "NONDET":
         _classify(violation, live, mlog, mkinds, mut_positions,
                   queries_since_eff, gens_after_query, edges, r, idx,
                   n_q_metrics if focus == idx else None, trace, sample_gens)
@@ -807,7 +856,19 @@ def generate(rng, mode):
   # per-run weights (swarm)
   def w(lo, hi, p_on=0.8):
     return rng.uniform(lo, hi) if rng.random() < p_on else 0.0
-  if mode == "c08":
+  srcsets_profile = (mode == "c08" and rng.random() < 0.25)
+  cfgd["profile"] = "srcsets" if srcsets_profile else "swarm"
+  if srcsets_profile:
+    # few variables, many origins with several alternative source sets, on a
+    # hub with loops: where the ORDER in which source sets are explored matters
+    shape = cfgd["shape"] = rng.choice(["hub", "hub", "loop"])
+    cyclic = cfgd["cyclic"] = True
+    mw = [("cnew", 0.6), ("cto", 0.8), ("varb", 1.5), ("bind", 1.5),
+          ("orig", 4.0), ("pasteb", 2.0), ("pastev", 0.7), ("pastend", 0.5),
+          ("vassign", 0.3), ("bassign", 0.3), ("cond", w(0.3, 1.5, 0.6))]
+    qw = [("has", 5.0), ("vis", 1.0), ("filter", 0.5)]
+    q_ratio = rng.uniform(0.15, 0.35)
+  elif mode == "c08":
     mw = [("node", w(0.2, 1)), ("cnew", w(1, 4, 0.95)), ("cto", w(0.5, 3, 0.9)),
           ("var", w(0.1, 1)), ("varb", w(0.5, 3)), ("bind", w(1, 5, 0.95)),
           ("orig", w(0.5, 3)), ("pasteb", w(0.5, 3, 0.7)), ("pastev", w(0.5, 3, 0.7)),
@@ -844,7 +905,7 @@ def generate(rng, mode):
     return rng.randrange(max(st["b"], 1))
 
   def bind_list(maxlen=3):
-    if st["b"] == 0 or rng.random() < 0.45:
+    if st["b"] == 0 or rng.random() < (0.15 if srcsets_profile else 0.45):
       return []
     return [bind_ref() for _ in range(rng.randrange(1, maxlen + 1))]
 
@@ -987,8 +1048,12 @@ def generate(rng, mode):
       if mode == "c08" and past_q and rng.random() < 0.5:
         ops.append(list(rng.choice(past_q[-6:])))
         last_was_query = True
-  return {"mode": mode, "cfg": cfgd, "ops": ops,
-          "pair_seed": rng.randrange(1 << 30)}
+  tr = {"mode": mode, "cfg": cfgd, "ops": ops,
+        "pair_seed": rng.randrange(1 << 30)}
+  if mode == "c08" and (rng.random() < 0.3 or srcsets_profile):
+    # also ask: is the answer of a freshly built copy a function of the graph?
+    tr["nondet_tries"] = rng.choice([1, 2, 3])
+  return tr
 
 
 # ---------------------------------------------------------------------------
@@ -1048,6 +1113,14 @@ def run_one(args):
          "violation": None}
   if res["violation"]:
     v = classify_run(trace, mode)
+    if v is None:
+      # the violation did not show again on re-execution in this very process:
+      # the target's answer is not a function of the history. Report that.
+      v = dict(res["violation"])
+      v["class"] = "NONDET"
+      v["oracle"] = "reexecution"
+      v["signature"] = {"class": "NONDET"}
+      do_shrink = False
     if do_shrink:
       small = shrink(trace, mode, v)
       v3 = classify_run(small, mode)
